@@ -477,6 +477,42 @@ fn random(args: &[String]) {
     std::process::exit(0);
 }
 
+/// stress: child delivered before its (valid) parent; the child must be connected once the parent is verified
+fn leader(args: &[String]) {
+    let trials = opt_u64(args, "--trials", 2000);
+    let ft = ckb_systemtime::faketime();
+    ft.set_faketime(GENESIS_TS + 100_000 * BLOCK_INTERVAL_MS);
+    let c = consensus(&Params::default());
+    let n = Node::start(&NodeCfg { assembler: false, ..NodeCfg::temp(&c) });
+    let m = Node::start(&NodeCfg { assembler: false, ..NodeCfg::temp(&c) });
+    let g = c.genesis_block().hash();
+    let mut stuck = 0u64;
+    for t in 0..trials {
+        let p = assemble(&m, &BlockSpec { nonce: 10 + 2 * t, ..Default::default() }).unwrap();
+        m.process(&p).unwrap();
+        let ch = assemble(&m, &BlockSpec { nonce: 11 + 2 * t, ..Default::default() }).unwrap();
+        m.process(&ch).unwrap();
+        let blocks = vec![p.clone(), ch.clone()];
+        let mut tl = Tally::default();
+        submit(&n, &mut tl, &ch, None);
+        submit(&n, &mut tl, &p, None);
+        let q = quiesce(&n, &tl, &blocks);
+        let orphan = n.chain.chain_controller().get_orphan_block(n.shared.store(), &ch.hash()).is_some();
+        if !q || orphan || n.tip().1 != ch.hash() {
+            stuck += 1;
+            println!("{}", json!({"leader_stuck": {"trial": t, "quiet": q, "child_still_orphan": orphan, "tip_is_child": n.tip().1 == ch.hash(),
+                "parent_ext": ext_str(&n, &p.hash())}}));
+            if stuck >= 3 { break; }
+        }
+        n.truncate_to(&g).unwrap();
+        m.truncate_to(&g).unwrap();
+    }
+    println!("{}", json!({"summary": {"trials": trials, "stuck": stuck}}));
+    use std::io::Write;
+    let _ = std::io::stdout().flush();
+    std::process::exit(0);
+}
+
 /// duplicate of a contextually invalid block racing with an equal-work sibling (see design.d/C01.md, finding)
 fn ghost(args: &[String]) {
     use ckb_store::ChainStore;
@@ -544,6 +580,7 @@ fn main() {
         Some("random") => random(&args),
         Some("trace") => trace(&args),
         Some("ghost") => ghost(&args),
+        Some("leader") => leader(&args),
         _ => {
             eprintln!("usage: c01 replay --in F | random --seed S --count K | ghost --dir D --phase P");
             std::process::exit(2);
